@@ -186,7 +186,7 @@ PROPS = {
     'C12': dict(
         props_file='Props/C12.v',
         components=['c12'],
-        comp_names={12: 'leader-side catch-up: real replicateTo on a stepper leader against a scripted follower', 1201: 'both sides real: a stepper leader and a stepper follower joined by a transport, one replicateTo call, vs the composed model (Converge.v)', 6: 'InstallSnapshot then AppendEntries on followers in enumerated stale/divergent/compacted states', 1007: 'stale tail + snapshot + leader change', 1008: 'convergence after a fault period (real timers)'},
+        comp_names={1011: 'takeSnapshot racing further applies (log contiguous above the snapshot)', 12: 'leader-side catch-up: real replicateTo on a stepper leader against a scripted follower', 1201: 'both sides real: a stepper leader and a stepper follower joined by a transport, one replicateTo call, vs the composed model (Converge.v)', 6: 'InstallSnapshot then AppendEntries on followers in enumerated stale/divergent/compacted states', 1007: 'stale tail + snapshot + leader change', 1008: 'convergence after a fault period (real timers)'},
         rule='(i) follower log length 1..6 (stale term-2 tail or agreeing with the leader), snapshot index 2..7, both store kinds, TrailingLogs {0,1,100}: InstallSnapshot, the AppendEntries that follows it, a heartbeat, restart '
              '(432 cases, exhaustive in both tiers), diffed against the model; monitor: after an installed snapshot the following AppendEntries is accepted. (ii) real clusters: family 7; family 8 = 200-500 ms of partitions/stops/snapshots '
              'with 60 ms timers, then quiet: one leader, a write accepted and every member caught up within 20 election timeouts + 0.5 s, with an InstallSnapshot-repeat counter. Non-trivial: every case',
